@@ -270,6 +270,9 @@ impl<'a> Ingestion<'a> {
         // Finalize the ingestion writer, writing all buffered data to disk.
         let results = self.writer.finish()?;
 
+        #[cfg(feature = "verif_hooks")]
+        crate::verif::yield_point("ingest:before_register");
+
         log::info!("Finished ingestion writer");
 
         // Acquire locks for version registration. We must hold both the
